@@ -202,6 +202,9 @@ func FromMont(l [4]uint64, m *big.Int) *big.Int {
 		ri = rInvN
 	default:
 		ri = new(big.Int).ModInverse(Mod(R, m), m)
+		if ri == nil {
+			panic("harness: FromMont with a modulus not coprime to 2^256")
+		}
 	}
 
 	t := new(big.Int).Mul(FromLimbs(l), ri)
